@@ -348,7 +348,7 @@ class Driver:
             return False
 
     def run(self, after_reset: Callable = None, after_step: Callable = None, before_step: Callable = None,
-            initial_reset: bool = True, max_past: int = 3) -> None:
+            initial_reset: bool = True, max_past: int = 3, after_req: Callable = None) -> None:
         env = self.env
         ops = list(self.case["ops"])
         if initial_reset:
@@ -365,6 +365,16 @@ class Driver:
                 self.steps_in_episode = 0
                 self.episodes += 1
                 if after_reset and after_reset(i, op, obs, info) is False:
+                    return
+            elif op[0] == "req":
+                # ["req", request]: a request handed to the simulation directly, between two steps (what another program
+                # or a scripted agent may do; there is no defender action for e.g. deleting a folder)
+                try:
+                    env.game.simulation.apply_request(list(op[1]), {})
+                except Exception as e:
+                    self.error = ("request", exc_sig(e), f"op#{i} {op}: {exc_msg(e)}")
+                    return
+                if after_req and after_req(i, op) is False:
                     return
             elif op[0] in ("wf", "idle", "rep"):
                 if op[0] == "rep":
